@@ -2,7 +2,9 @@
 From Coq Require Import List NArith Bool.
 From MV Require Import Base.PyStr.
 From MV Require Import Base.Res.
+From MV Require Import Opt.OptModel.
 Import ListNotations.
+Open Scope N_scope.
 
 (* a loop is left by `break` / a false condition (Next: the loop variables) or by `return` (Done) *)
 Inductive ctl (S R : Type) : Type :=
@@ -13,3 +15,33 @@ Arguments Done {S R} r.
 
 (* `not xs` for a Python list *)
 Definition is_nil {A} (l : list A) : bool := match l with [] => true | _ => false end.
+
+(* ---- StreamBuffer: representation chosen for the translated class ----
+   The Python object (_buffer, _index, _line, _column) is the record OptModel.stream
+   (s_idx, s_line, s_col, s_rest) with s_rest = _buffer[_index:].  The four accessors below are
+   the only places where that representation is used by gen/c07_src.py. *)
+(* self._buffer[self._index + k] *)
+Definition sb_at (self : stream) (k : nat) : res N :=
+  match nth_error (s_rest self) k with Some c => Ok c | None => Raise IndexError end.
+(* self._buffer[self._index : self._index + n] *)
+Definition sb_slice (self : stream) (n : nat) : str := firstn n (s_rest self).
+(* self._index += 1 *)
+Definition sb_index_incr (self : stream) : stream :=
+  mkS (s_idx self + 1) (s_line self) (s_col self) (tl (s_rest self)).
+Definition sb_set_line (self : stream) (v : N) : stream := mkS (s_idx self) v (s_col self) (s_rest self).
+Definition sb_set_col (self : stream) (v : N) : stream := mkS (s_idx self) (s_line self) v (s_rest self).
+(* StreamBuffer.__init__ : _buffer = b, _index = i, _line = l, _column = c (i = 0 only) *)
+Definition sb_init (b : str) (l c : N) : stream := mkS 0 l c b.
+
+(* a generator run over items of type T *)
+Definition gw (T A : Type) : Type := (list T * res A)%type.
+Definition gret {T A} (a : A) : gw T A := ([], Ok a).
+Definition graise {T A} (e : exn) : gw T A := ([], Raise e).
+Definition gyield {T} (t : T) : gw T unit := ([t], Ok tt).
+Definition gbind {T A B} (m : gw T A) (f : A -> gw T B) : gw T B :=
+  match m with
+  | (ts, Raise e) => (ts, Raise e)
+  | (ts, Ok a) => let '(ts', r) := f a in (ts ++ ts', r)
+  end.
+Notation "'dog' x <- r ; k" := (gbind r (fun x => k))
+  (at level 200, x pattern, r at level 100, k at level 200, right associativity).
